@@ -1,6 +1,7 @@
 package checks
 
 import (
+	"github.com/invopop/gobl/schema"
 	"bytes"
 	"encoding/json"
 	"fmt"
@@ -349,7 +350,8 @@ func runC19(c *Ctx) {
 	c19served(c)
 	c.R.Set("registered", map[string]int{"regimes": len(tax.AllRegimeDefs()), "addons": len(tax.AllAddonDefs()), "catalogues": len(tax.AllCatalogueDefs())})
 	c.R.Exhaustive(true)
-	c.Require("files_compared:schemas", "files_compared:regimes", "served_files_compared")
+	c19afterUse(c)
+	c.Require("definitions_compared_in_process:after use", "files_compared:schemas", "files_compared:regimes", "served_files_compared")
 }
 
 func asList(v any) []any {
@@ -377,6 +379,61 @@ func firstDiff(a, b []byte) string {
 
 // c19served: what the running CLI serves (bulk actions "regime", "schema",
 // "schemas") is exactly the shipped files.
+// c19afterUse: the definitions registered in this process, serialised the way
+// the generators serialise them, must still equal the published files after the
+// library has been used (every work item of the concurrency check through
+// calculate, validate, sign, correct, correction options, replicate): what the
+// code defines must not depend on what the process handled before.
+func c19afterUse(c *Ctx) {
+	compare := func(when string) {
+		for _, rd := range tax.AllRegimeDefs() {
+			b, err := c19asGenerated(rd)
+			file := filepath.Join(ev.Repo(), "data", "regimes", strings.ToLower(rd.Country.String())+".json")
+			disk, derr := os.ReadFile(file)
+			var x, y any
+			if err != nil || derr != nil || json.Unmarshal(b, &x) != nil || json.Unmarshal(disk, &y) != nil {
+				continue
+			}
+			c.R.Count("definitions_compared_in_process:"+when, 1)
+			if !jsonEqual(x, y) {
+				_, det := firstJSONDiff(disk, b)
+				c.R.Fail("in-process-differs:"+when+":regimes/"+strings.ToLower(rd.Country.String()), fmt.Sprintf("the registered definition of regime %s, %s, differs from data/regimes: %s", rd.Country, when, det), map[string]any{"regime": rd.Country.String(), "when": when})
+			}
+		}
+		for _, ad := range tax.AllAddonDefs() {
+			b, err := c19asGenerated(ad)
+			file := filepath.Join(ev.Repo(), "data", "addons", ad.Key.String()+".json")
+			disk, derr := os.ReadFile(file)
+			var x, y any
+			if err != nil || derr != nil || json.Unmarshal(b, &x) != nil || json.Unmarshal(disk, &y) != nil {
+				continue
+			}
+			c.R.Count("definitions_compared_in_process:"+when, 1)
+			if !jsonEqual(x, y) {
+				_, det := firstJSONDiff(disk, b)
+				c.R.Fail("in-process-differs:"+when+":addons/"+ad.Key.String(), fmt.Sprintf("the registered definition of addon %s, %s, differs from data/addons: %s", ad.Key, when, det), map[string]any{"addon": ad.Key.String(), "when": when})
+			}
+		}
+	}
+	compare("before use")
+	work := c15workList()
+	for _, w := range work {
+		_ = c15pipeline(w.Doc, func() {})
+	}
+	c.R.Count("documents_used_before_second_comparison", int64(len(work)))
+	compare("after use")
+}
+
+// c19asGenerated serialises a definition the way the repository's generators do
+// (wrapped in a schema object, which adds the $schema member).
+func c19asGenerated(def any) ([]byte, error) {
+	doc, err := schema.NewObject(def)
+	if err != nil {
+		return nil, err
+	}
+	return json.Marshal(doc)
+}
+
 func c19served(c *Ctx) {
 	gbin := filepath.Join(ev.Root(), "bin", "gobl")
 	if _, err := os.Stat(gbin); err != nil {
